@@ -23,7 +23,8 @@ RULE = ('a case = a generated host program (nested calls across modules, if/else
         'tracepoints have a scripted condition (arbitrary open/not-open per hit). Main stream: the reference stream '
         'satisfies NoClash and NoStack (checked by the generator). Separate labelled streams kf-rec (self-recursive '
         'functions with spans) and kf-stack (method + line span pending at a function end) are instances of the two '
-        'known findings. Non-trivial = at least two contexts opened on some thread and one of them nested in or '
+        'known findings; stream cfg-emptied: the host program calls a hook that empties the installed tracepoint list '
+        '(handler.new_config([]) / handler.shutdown()) in the middle of a function with deferred work open. Non-trivial = at least two contexts opened on some thread and one of them nested in or '
         'overlapping another. Distinct = distinct canonical JSON.')
 TRUSTED = ['CPython 3.12 trace-event discipline (the model and the oracle consume the recorded reference stream; the '
            'invocation-tree flattening of the model is compared with the recorded stream on every case)',
@@ -57,6 +58,20 @@ STACK_SRC = ('def f(x, k):\n'                                   # 1
              '    a = f(x, next(_TL.ctr))\n'                    # 8
              '    r = a + 1\n'                                  # 9
              '    return r\n')                                  # 10
+
+
+HOOK_SRC = ('def h(n, k):\n'                                    # 1
+            '    x = n + 1\n'                                   # 2
+            "    _HOOK('%s')\n"                                 # 3
+            '    x = x + 1\n'                                   # 4
+            '    r = x\n'                                       # 5
+            '    return r\n'                                    # 6
+            '\n'
+            '\n'
+            'def f(n, k):\n'                                    # 9
+            '    y = h(n, next(_TL.ctr))\n'                     # 10
+            '    r = y + h(n, next(_TL.ctr))\n'                 # 11
+            '    return r\n')                                   # 12
 
 
 def span_tp(n, path, line=0, method=None, scripted=False, via='resp'):
@@ -109,13 +124,13 @@ def known_replays():
 
 # --------------------------------------------------------------------------------------- generation
 def opens_of(case, events, t):
-    groups, _ = th.reference(case['tps'], events, case.get('scripts', {}).get(t, {}))
+    groups, _ = th.reference(case['tps'], events, case.get('scripts', {}).get(t, {}), upto=th.emptied_at(case, events))
     return {g['i'] for g in groups if any(k in OPENS for k, _ in g['effects'])}
 
 
 def reference_streams(case):
     """the reference streams of a case (recorder only) — used by the generator to classify the case."""
-    host = th.Host(case['files'])
+    host = th.Host(case['files'], case.get('nosource', ()))
     try:
         rec = th.Recorder(host)
         th.run_program(host, [tuple(e) for e in case['entries']], 'sys', rec.trace)
@@ -169,11 +184,34 @@ def gen_tps(rng, prog, entries, want_stack=False):
 def gen_case(rng, tier, stream='main'):
     mode = rng.choice(['sys', 'sys', 'threads', 'threads', 'seq'])
     nthreads = rng.randint(2, 3) if mode != 'sys' else rng.choice([1, 1, 2])
+    hook = None
+    if stream == 'cfg-emptied':
+        # the installed tracepoint list is emptied (a poll without tracepoints / a shutdown) by a hook the host
+        # program calls in the middle of a function that has deferred work open
+        mode, nthreads, hook, stream = 'sys', 1, rng.choice(['empty', 'shutdown']), 'main'
     for _attempt in range(20):
         prog = th.gen_program(rng, nmods=rng.randint(1, 3), nfuncs=rng.randint(3, 5), recursion=(stream == 'kf-rec'),
-                              sync=(mode == 'threads'), big=(tier == 'thorough' and rng.random() < 0.3))
+                              sync=(mode == 'threads'), big=(tier == 'thorough' and rng.random() < 0.3), hook=hook)
         entries = [[rng.choice(prog['meta']['mods']), 'f0', rng.randint(0, 3)] for _ in range(nthreads)]
+        if hook:
+            entries = [['m0', 'f0', rng.randint(0, 3)]]
         tps = gen_tps(rng, prog, entries)
+        if hook:
+            info = prog['meta']['lines']['m0']
+            fn = info.get('hook_fn', 'f0')
+            # deferred work that is open when the hook runs: on the function that calls it and on its callers
+            front = [span_tp(0, 'm0.py', method=fn, scripted=rng.random() < 0.2)]
+            if rng.random() < 0.6:
+                front.append(cap_tp(0, 'm0.py', method=fn))
+            if rng.random() < 0.5:
+                front.append(span_tp(0, 'm0.py', line=info['hook']))
+            if fn != 'f0' and rng.random() < 0.6:
+                front.append(rng.choice([span_tp, cap_tp])(0, 'm0.py', method='f0'))
+            tps = front + tps[:4]
+            for i, tp in enumerate(tps):
+                tp['id'] = 'tp%d' % i
+                if tp.get('scripted'):
+                    tp['args']['condition'] = "_dec('%s')" % tp['id']
         scripts = {}
         for t in range(nthreads):
             scripts['T%d' % t] = {tp['id']: [rng.random() < 0.6 for _ in range(rng.randint(0, 6))]
@@ -182,6 +220,9 @@ def gen_case(rng, tier, stream='main'):
                 'entries': entries, 'tps': tps, 'scripts': scripts,
                 'sched': [rng.randrange(nthreads) for _ in range(rng.randint(0, 12))] if mode == 'threads' else [],
                 'model_seed': rng.randrange(10 ** 6), 'stream': stream}
+        if hook:
+            case['hook'] = {'file': 'm0.py', 'line': prog['meta']['lines']['m0']['hook'], 'what': hook}
+            case['stream'] = 'cfg-emptied'
         if mode == 'seq':
             case['sequential'] = True
         streams = reference_streams(case)
@@ -232,6 +273,8 @@ def gen(rng, tier):
         k += 1
         if k % 10 == 0:
             yield gen_case(rng, tier, 'kf-rec')
+        elif k % 10 in (3, 7):
+            yield gen_case(rng, tier, 'cfg-emptied')
         elif k % 10 == 5:
             yield gen_case(rng, tier, 'kf-stack')
         else:
@@ -272,6 +315,17 @@ def corpus():
          'scripts': {}, 'sched': [], 'model_seed': 1, 'stream': 'main'},
         {'kind': 'prog', 'mode': 'threads', 'files': {'m0.py': src}, 'entries': [['m0', 'f', 2], ['m0', 'f', 0]],
          'tps': tps, 'scripts': {}, 'sched': [], 'model_seed': 2, 'stream': 'main'},
+        # the tracepoint list is emptied (poll without tracepoints / shutdown) while h has a method span and a deferred
+        # method capture open and f a method span: they still complete at their returns
+        {'kind': 'prog', 'mode': 'sys', 'files': {'m0.py': HOOK_SRC % 'empty'}, 'entries': [['m0', 'f', 1]],
+         'tps': [span_tp(0, 'm0.py', method='h'), cap_tp(1, 'm0.py', method='h'), span_tp(2, 'm0.py', method='f'),
+                 span_tp(3, 'm0.py', line=3)],
+         'hook': {'file': 'm0.py', 'line': 3, 'what': 'empty'}, 'scripts': {}, 'sched': [], 'model_seed': 4,
+         'stream': 'cfg-emptied'},
+        {'kind': 'prog', 'mode': 'sys', 'files': {'m0.py': HOOK_SRC % 'shutdown'}, 'entries': [['m0', 'f', 1]],
+         'tps': [cap_tp(0, 'm0.py', method='h'), span_tp(1, 'm0.py', line=2)],
+         'hook': {'file': 'm0.py', 'line': 3, 'what': 'shutdown'}, 'scripts': {}, 'sched': [], 'model_seed': 5,
+         'stream': 'cfg-emptied'},
         # a polluter first (method + line span pending at f's return: the method span stays pending when the thread
         # ends, known finding), then fresh threads one after the other (thread idents are reused): nothing may be
         # inherited by them
@@ -311,7 +365,8 @@ def oracle_thread(case, obs, t):
     events = obs['ref'].get(t, [])
     observed = obs['effects'].get(t, [])
     fired = [o for o in observed if o['kind'] in th.FIRED]
-    groups, inv = th.reference(case['tps'], events, case.get('scripts', {}).get(t, {}))
+    groups, inv = th.reference(case['tps'], events, case.get('scripts', {}).get(t, {}),
+                               upto=th.emptied_at(case, events))
     vv, paired = th.align(groups, fired, events, what='the statement')
     v += vv
     if obs.get('start_set', {}).get(t):
@@ -442,8 +497,11 @@ def model_request(case, obs):
         if f is None:
             reqs.append({'op': 'none'})
             continue
-        reqs.append({'op': 'forest', 'resp': run['resp'], 'custom': run['custom'], 'forest': f,
-                     'script': run['threads'][k]['script']})
+        fr = {'op': 'forest', 'resp': run['resp'], 'custom': run['custom'], 'forest': f,
+              'script': run['threads'][k]['script']}
+        if 'empty_at' in run['threads'][k]:
+            fr['empty_at'] = run['threads'][k]['empty_at']
+        reqs.append(fr)
     return {'op': 'batch', 'reqs': reqs}
 
 
